@@ -119,6 +119,14 @@ func (m *miniEval) eval(e ast.Expr) constant.Value {
 			if l.Kind() == constant.Int && r.Kind() == constant.Int {
 				return constant.BinaryOp(l, x.Op, r)
 			}
+		case token.QUO, token.REM:
+			if l.Kind() == constant.Int && r.Kind() == constant.Int && constant.Sign(r) != 0 {
+				op := token.QUO_ASSIGN // go/constant: integer division
+				if x.Op == token.REM {
+					op = token.REM
+				}
+				return constant.BinaryOp(l, op, r)
+			}
 		}
 	}
 	return nil
